@@ -5,7 +5,7 @@ from concurrent.futures import ThreadPoolExecutor
 from .common import COQ, WORK
 
 HEADER = """From Coq Require Import ZArith QArith List Bool.
-From RV Require Import Base.Num Expr Ocp Rows Mech.Shooting Runner.
+From RV Require Import Base.Num Expr Ocp Rows Mech.Shooting Mech.Stages Runner.
 Import ListNotations.
 Set Printing Depth 10000000.
 Set Printing Width 100000000.
